@@ -6,6 +6,8 @@ import sys
 
 sys.path.insert(0, os.path.dirname(os.path.abspath(__file__)))
 sys.path.insert(0, os.path.join(os.path.dirname(os.path.abspath(__file__)), "..", "tools"))
+import codec  # noqa: E402
+import common  # noqa: E402
 import cppcommon as C  # noqa: E402
 import schema as S  # noqa: E402
 from checklib import Check  # noqa: E402
@@ -45,16 +47,44 @@ def main():
             chk.violation("size-%d-%d-%s" % (i, vi, e), C.case_of(cases, jobs, i, vi, {
                 "kind": bad, "op": e, "input": h,
                 "cpp": {k: o.get(k) for k in ("size", "ptr_written", "reenc", "heap_overrun", "crash", "exceptions", "overfilled")}}))
+    # the tie of the C05 theorem: get_byte_size() of the compiled code = the generator model cpp_size = len (wire),
+    # evaluated inside Coq for every object obtained from canonical bytes (not the over-filled ones: they are
+    # outside wt; their size is compared with what the encoder writes above)
+    seen = set()
+    entries = []
+    for i, vi, e, h, o in records:
+        if o.get("ok") and e != "overfill" and o.get("size") is not None and tail_ok.get((i, vi), True) and (i, vi) not in seen:
+            seen.add((i, vi))
+            entries.append((i, vi, o["size"]))
+
+    def ex(en, names):
+        i, vi, size = en
+        return "(%d, %d, cpp_size_case %s %s %s)" % (i, vi, S.to_coq(cases[i][2], names),
+                                                      S.value_coq(S.value_from_json(jobs[i]["values"][vi])), S.zlit(size))
+
+    files = codec.write_case_files(common.scratch("c05"), "size", entries, ex, chunk=300)
+    for i, vi, r in codec.eval_case_files(files):
+        if r[:1] == [90]:
+            chk.violation("corr-%d-%d" % (i, vi), C.case_of(cases, jobs, i, vi, {
+                "kind": "correspondence broken: CppFull.cpp_size (theorem C05_get_byte_size_is_wire_length) no longer describes the "
+                        "generated get_byte_size(), which still returns the length of the canonical encoding", "result": r}),
+                note="no-failing-input-found")
+        else:
+            chk.violation("wire-%d-%d" % (i, vi), C.case_of(cases, jobs, i, vi, {
+                "kind": "get_byte_size() of the object decoded from the canonical bytes is not the length of the canonical encoding "
+                        "(result = [91; canonical length])", "result": r}))
+    chk.coverage["coq_size_cases"] = len(entries)
     chk.coverage["rule"] = ("schemas/values as in C03; C++ objects are obtained by decoding canonical bytes, and additionally by "
                             "appending 2 extra elements to every limited array/bytes at any depth (over-full limited vectors). For "
                             "each object: get_byte_size(), bytes written by encode<E>(void*) into an exact-size heap block, length "
                             "of encode<E>(); guard bytes after every heap block (quick) or ASan+UBSan (thorough) detect writes "
-                            "outside the buffer; fixed types must report their wire size.")
+                            "outside the buffer; fixed types must report their wire size. Every get_byte_size() of a decoded object is also compared "
+                            "inside Coq with the generator model cpp_size and with len (wire).")
     if records:
         i, vi, e, h, o = records[len(records) // 3]
         chk.sample({"schema": S.to_prophy(cases[i][2]), "op": e, "input": h, "size": o.get("size"), "ptr_written": o.get("ptr_written")})
     chk.assumptions += ["g++ 12, x86-64; sanitizers / guard bytes detect overflow, they do not prove its absence"]
-    return chk.finish(level="exploration")
+    return chk.finish(level="proof")
 
 
 if __name__ == "__main__":
